@@ -429,6 +429,15 @@ func genCase(t *rapid.T) Case {
 				e.Msg = ev.Hex(midi.NoteOn(ch, byte(rapid.IntRange(0, 127).Draw(t, "key")), byte(rapid.IntRange(1, 127).Draw(t, "vel"))))
 				room := total - done - e.Pos
 				e.Dur = rapid.IntRange(1, min(255, room)).Draw(t, "dur")
+				// one note in three is struck again (same track, channel and key) on the very
+				// 32nd where it ends, if that is still inside this bar
+				if e.Pos+e.Dur < lens[i] && rapid.IntRange(0, 2).Draw(t, "restrike?") == 0 {
+					c.Bars[i].Events = append(c.Bars[i].Events, e)
+					again := e
+					again.Pos = e.Pos + e.Dur
+					again.Dur = rapid.IntRange(1, min(255, total-done-again.Pos)).Draw(t, "durAgain")
+					e = again
+				}
 			}
 			c.Bars[i].Events = append(c.Bars[i].Events, e)
 		}
@@ -438,7 +447,7 @@ func genCase(t *rapid.T) Case {
 }
 
 var songs = ev.NewCheck("C20", "songs",
-	"rapid: songs of 1..12 bars (one song in five: 100..400 bars; one in 500: 5400..7000 bars of 7/1 and 6/1 at resolution 32000..32760, i.e. longer than 2^32 ticks, with a signature change and events on three tracks every 1000 bars so that no delta exceeds a uint32); time signatures numerator 1..24 over denominators 1,2,4,8,16,32 with bars of at most 255 thirty-seconds (biased to 6/8, 9/8, 12/8, 7/4, 15/16), bars inheriting the previous signature; resolutions divisible by 8 (24..15360); up to 8 tracks; per bar 0..5 events (NoteOn velocity > 0 with a duration ending within the song, control/program change, pitch bend, channel and key pressure, sysex) at any in-bar position; in one case of four the song is exported once in the middle of being built, then possibly edited (new resolution, time signatures of existing bars replaced through Bars()), the remaining bars are added and it is exported again (export - edit - export); oracle = independent bar/grid model: bar start = sum of previous num*32/den * res/8, event at start+pos*t32, NoteOff at start+(pos+dur)*t32, time-signature event at every change relative to 4/4, every track ends at the song end, no wrapped delta; ToSMF0 and the union of ToSMF1 must equal the model (hence each other) as multisets of (tick, bytes), ToSMF1 assigns events to tracks by TrackNo; non-trivial = >= 2 bars, a bar with numerator >= 8 and an event in or after it in a later bar; distinct by case hash",
+	"rapid: songs of 1..12 bars (one song in five: 100..400 bars; one in 500: 5400..7000 bars of 7/1 and 6/1 at resolution 32000..32760, i.e. longer than 2^32 ticks, with a signature change and events on three tracks every 1000 bars so that no delta exceeds a uint32); time signatures numerator 1..24 over denominators 1,2,4,8,16,32 with bars of at most 255 thirty-seconds (biased to 6/8, 9/8, 12/8, 7/4, 15/16), bars inheriting the previous signature; resolutions divisible by 8 (24..15360); up to 8 tracks; per bar 0..5 events (NoteOn velocity > 0 with a duration ending within the song, one note in three struck again with the same track, channel and key on the very 32nd where it ends, control/program change, pitch bend, channel and key pressure, sysex) at any in-bar position; in one case of four the song is exported once in the middle of being built, then possibly edited (new resolution, time signatures of existing bars replaced through Bars()), the remaining bars are added and it is exported again (export - edit - export); oracle = independent bar/grid model: bar start = sum of previous num*32/den * res/8, event at start+pos*t32, NoteOff at start+(pos+dur)*t32, time-signature event at every change relative to 4/4, every track ends at the song end, no wrapped delta; ToSMF0 and the union of ToSMF1 must equal the model (hence each other) as multisets of (tick, bytes), ToSMF1 assigns events to tracks by TrackNo; non-trivial = >= 2 bars, a bar with numerator >= 8 and an event in or after it in a later bar; distinct by case hash",
 	genCase, run)
 
 func TestPropSongs(t *testing.T) { songs.Rapid(t, 3000, 60000) }
